@@ -55,6 +55,8 @@ def letters():
         add('lit:ds700%+d' % d, b'[snoopy]\ndatasource_message_max_length = 700\nmessage_format = ' + b'L' * (700 + d) + b'%{uid}tail\noutput = file:log\n')
         add('lit:ident256%+d' % d, b'[snoopy]\nsyslog_ident = ' + b'I' * (256 + d) + b'%{uid}\noutput = devlog\n')
         add('lit:path%+d' % d, b'[snoopy]\noutput = file:' + b'./' * ((4096 + d - 3) // 2) + b'x' * ((4096 + d - 3) % 2) + b'log%{uid}\n')
+    # the log path is a terminal (not the caller's): used below with a caller that is a session leader without a controlling terminal
+    add('out:file_is_a_foreign_tty', b'[snoopy]\noutput = file:%{env:PTSPATH}\n')
     add('cfg:absent', None)
     add('cfg:dir', 'DIR')
     add('cfg:garbage', bytes(range(1, 256)))
@@ -69,6 +71,7 @@ PRELUDES = {'plain': [], 'sigstate': ['sighandler 10', 'sighandler 13', 'sighand
             'ids_unknown': ['stdin pty', 'setresgid 54321 54321 54321', 'setresuid 54321 54321 54321'],
             'ids_mixed': ['stdin pty', 'setresgid 1 54321 0', 'setresuid 1 54321 0'],
             'fds_above_1023': ['openfds 1100'],
+            'session_leader_without_ctty': ['dropctty', 'ptyslave ' + H.hx(b'PTSPATH')],
             # the caller has blocked SIGPIPE / SIGXFSZ / SIGTTOU / SIGUSR1 and one instance of each is PENDING: it must still be pending, and
             # undelivered, afterwards (the digest holds the pending set; a delivery would kill the process)
             'blocked_signals_pending': ['sigmask 13', 'sigmask 25', 'sigmask 22', 'sigmask 10', 'raise 13', 'raise 25', 'raise 22', 'raise 10'],
@@ -118,7 +121,10 @@ def run(ck):
         jobs = []
         for pn, pl in PRELUDES.items():
             for name, lines in L.items():
-                if pn == 'env_with_line_feeds':
+                if pn == 'session_leader_without_ctty':
+                    if not name.startswith(('out:file_is_a_foreign_tty', 'out:devtty', 'ds:tty', 'out:file')):
+                        continue
+                elif pn == 'env_with_line_feeds':
                     if not name.startswith(('ds:login', 'ds:env', 'ds:username', 'exec:')):
                         continue
                 elif pn.startswith('ids_'):
